@@ -247,6 +247,11 @@ namespace sim
           kv.push_back({"taper distance", num(r.real(50e3, 150e3))});
           if (r.chance(0.5))
             kv.push_back({"reference model name", str(r.chance(0.5) ? "plate model" : "half space model")});
+          if (r.chance(0.4))
+            {
+              kv.push_back({"apply spline", "true"});
+              kv.push_back({"number of points in spline", inum(r.range(3, 12))});
+            }
         }
       if ((m == "half space model" || m == "plate model") && family == "oceanic plate")
         {
@@ -379,14 +384,20 @@ namespace sim
       KV kv;
       const bool deflected = allow_deflected && r.chance(0.5);
       kv.push_back({"model", str(deflected ? "random uniform distribution deflected" : "random uniform distribution")});
-      const int n = static_cast<int>(r.range(1, 2));
+      const int n = static_cast<int>(r.range(1, 3));
       std::vector<unsigned> comps;
       std::vector<double> sizes;
       std::vector<std::string> norm;
       std::vector<bool> normb;
+      // the labels are usually 0..n-1 in order; otherwise any distinct labels in any order, so that the label of
+      // a composition and its position in the lists of the model differ
+      unsigned labels[4] = {0, 1, 2, 3};
+      if (r.chance(0.5))
+        for (int i = 0; i < 3; ++i)
+          std::swap(labels[i], labels[i + static_cast<int>(r.below(static_cast<uint64_t>(4 - i)))]);
       for (int i = 0; i < n; ++i)
         {
-          comps.push_back(static_cast<unsigned>(i));
+          comps.push_back(labels[i]);
           // exactly representable with few digits, so that the value the parser stores is the value written
           sizes.push_back(r.chance(0.5) ? -1.0 : static_cast<double>(r.range(3, 58)) / 64.0);
           normb.push_back(r.chance(0.5));
@@ -1004,6 +1015,10 @@ namespace sim
       }
     kv.push_back({"features", list(feats)});
     g.json = obj(kv);
+    size_t n_grains_lists = 0;
+    for (size_t at = g.json.find("\"grains models\""); at != std::string::npos; at = g.json.find("\"grains models\"", at + 1))
+      ++n_grains_lists;
+    m.sole_grains_model = m.grains_present && n_grains_lists == 1;
     return g;
   }
 
@@ -1055,6 +1070,11 @@ namespace sim
       {"coupling depth", num(80e3)}, {"forearc cooling factor", num(r.real(15, 20))}, {"taper distance", num(100e3)},
       {"min distance slab top", num(0)}, {"max distance slab top", num(100e3)}
     };
+    if (r.chance(0.4))
+      {
+        tm.push_back({"apply spline", "true"});
+        tm.push_back({"number of points in spline", inum(r.range(3, 12))});
+      }
     KV fk = {{"model", str("subducting plate")}, {"name", str("slow slab")}, {"coordinates", list({pt(x0, -500e3), pt(x0, 500e3)})},
       {"dip point", pt(x0 + 1000e3, 0)},
       {"segments", list({obj({{"length", num(r.real(580e3, 650e3))}, {"thickness", nums({100e3})}, {"angle", nums({r.real(42, 48)})}})})},
